@@ -91,13 +91,13 @@ func loadProgram(d *Descriptor, scratch string) (*ssa.Program, *ssa.Package, err
 	return prog, spkgs[0], nil
 }
 
-func newEngine(prog *ssa.Program, cfg EntryCfg, kf []KnownFinding) *Engine {
+func newEngine(prog *ssa.Program, cfg EntryCfg, kf []KnownFinding, stubs map[string]string) *Engine {
 	to := cfg.TimeoutS
 	if to == 0 {
 		to = 20
 	}
 	e := &Engine{prog: prog, sol: NewSolver(to*1000, solverBin(), "-in"), globals: map[*ssa.Global]int{}, inited: map[*ssa.Package]bool{},
-		pureMemo: map[*ssa.Function]int{}, funcs: map[string]bool{}, reach: map[string]bool{}, cfg: cfg, kf: kf,
+		pureMemo: map[*ssa.Function]int{}, funcs: map[string]bool{}, reach: map[string]bool{}, cfg: cfg, kf: kf, stubs: stubs,
 		aborts: map[string]int{}, viol: map[string]*Violation{}, known: map[string]*Violation{}, ndVars: map[string]*Term{}, asserted: map[string]int{}}
 	e.allocMax = cfg.AllocMax
 	if e.allocMax == 0 {
@@ -126,10 +126,10 @@ func solverBin() string {
 	return "z3-new"
 }
 
-func runEntry(prog *ssa.Program, pkg *ssa.Package, cfg EntryCfg, kf []KnownFinding) (res *EntryResult) {
+func runEntry(prog *ssa.Program, pkg *ssa.Package, cfg EntryCfg, kf []KnownFinding, stubs map[string]string) (res *EntryResult) {
 	res = &EntryResult{Cfg: cfg}
 	t0 := time.Now()
-	e := newEngine(prog, cfg, kf)
+	e := newEngine(prog, cfg, kf, stubs)
 	res.Eng = e
 	defer func() {
 		if r := recover(); r != nil {
@@ -155,6 +155,14 @@ func runEntry(prog *ssa.Program, pkg *ssa.Package, cfg EntryCfg, kf []KnownFindi
 	e.instrs = 0
 	e.aborts = map[string]int{}
 	e.unsupported = 0
+	mw := cfg.MaxWallS
+	if mw == 0 {
+		mw = 900
+	}
+	if v, _ := strconv.Atoi(os.Getenv("SYMGO_MAX_WALL_S")); v > 0 {
+		mw = v
+	}
+	e.deadline = time.Now().Add(time.Duration(mw) * time.Second)
 	e.pushFrame(st, st.gs[0], f, nil, nil, nil)
 	e.drive([]*State{st}, nil)
 	return
@@ -247,7 +255,10 @@ func cmdCheck(id string, args []string) int {
 			defer wg.Done()
 			sem <- struct{}{}
 			defer func() { <-sem }()
-			results[i] = runEntry(prog, pkg, entries[i], kf)
+			results[i] = runEntry(prog, pkg, entries[i], kf, d.Stubs)
+			if r := results[i]; r.Eng != nil {
+				fmt.Fprintf(os.Stderr, "  .. %s %v done: paths=%d queries=%d wall=%v stopped=%v\n", r.Cfg.Fn, r.Cfg.Params, r.Eng.paths, r.Queries[0], r.Wall.Round(time.Millisecond), r.Eng.stopped)
+			}
 		}(i)
 	}
 	wg.Wait()
@@ -362,7 +373,7 @@ func cmdCheck(id string, args []string) int {
 			inconclusive = append(inconclusive, fmt.Sprintf("%s: unwinding bound %d hit %d times (bound too small)", fn, e.unwind, e.unwindHits))
 		}
 		if e.stopped {
-			inconclusive = append(inconclusive, fmt.Sprintf("%s: path budget exhausted", fn))
+			inconclusive = append(inconclusive, fmt.Sprintf("%s %v: path or wall-clock budget exhausted", fn, r.Cfg.Params))
 		}
 		if r.SolverErrs > 0 {
 			inconclusive = append(inconclusive, fmt.Sprintf("%s: %d solver errors", fn, r.SolverErrs))
